@@ -32,11 +32,15 @@ class C09(Prop):
     def gen(self, rng, idx, tier):
         if idx % 40 == 7:
             return self.gen_threaded(rng)
+        if idx % 40 == 23:
+            return self.gen_threaded_release(rng)
         nodes, servers = gen.node_specs(1, unix=rng.random() < 0.2)
         idle = rng.choice([0, 5, 60, 0.5, 2.5])
         ck = {"default_noreply": rng.random() < 0.4, "timeout": rng.choice([None, 0.5, 3]),
               "connect_timeout": rng.choice([None, 0.5]), "max_pool_size": rng.choice([None, 1, 2]),
               "pool_idle_timeout": idle, "ignore_exc": rng.random() < 0.4}
+        if rng.random() < 0.25:
+            ck["no_delay"] = True
         if rng.random() < 0.3:
             ck["key_prefix"] = E(b"p:")
         w = {"stack": "pooled", "servers": servers, "nodes": nodes, "client_kwargs": ck,
@@ -71,8 +75,8 @@ class C09(Prop):
             recs = {c.step: c for c in res.calls}
             chosen = sorted(rng.sample(call_steps[:-1], min(len(call_steps) - 1, rng.randint(1, 2))))
             return [base] + gen.sweep_variants(base, recs, chosen,
-                                               ("connect", "sendall", "recv", "close", "socket", "settimeout"),
-                                               rng)
+                                               ("connect", "sendall", "recv", "close", "socket", "settimeout",
+                                                "setsockopt"), rng)
         for _ in range(rng.choice([1, 2, 3, 4])):
             i = rng.choice(call_steps)
             steps[i].setdefault("faults", []).append(gen.random_fault(rng))
@@ -111,6 +115,37 @@ class C09(Prop):
         base["threads"]["sched"] = {"mode": "explicit", "switches": [[step, 1]]}
         return [base]
 
+    def gen_threaded_release(self, rng):
+        """A call that lasts longer than pool_idle_timeout gives its (perfectly fresh) connection back while a
+        second caller checks out: pre-emption at every instruction after release() has let go of the pool lock."""
+        from . import c08
+        from .. import sched as _sched
+        nodes, servers = gen.node_specs(1)
+        idle = rng.choice([2, 2.5, 10])
+        ck = {"default_noreply": False, "max_pool_size": rng.choice([None, 2]), "pool_idle_timeout": idle, "timeout": None}
+        progs = [[{"m": "get", "a": [E(b"k0")], "net": {"lat": idle + rng.choice([0.5, 1, 5])}}],
+                 [{"m": rng.choice(["get", "set"]), "a": [E(b"k1")]}]]
+        if progs[1][0]["m"] == "set":
+            progs[1][0]["a"].append(E(b"v"))
+        w = {"stack": "pooled", "servers": servers, "nodes": nodes, "client_kwargs": ck, "knobs": {}}
+        base = {"property": self.id, "world": w, "steps": [], "no_faults": True,
+                "threads": {"mode": "pooled", "programs": progs, "lock": rng.choice(["generator", "threading"]),
+                            "sched": {"mode": "none"}}}
+        try:
+            res = c08.execute(copy.deepcopy(base))
+        finally:
+            _sched.uninstall()
+        s = res.extra["sched"]
+        rel = [st for (tid, kind), st in zip(s.trace, s.trace_steps) if tid == 0 and kind == "lock-release"]
+        if not rel:
+            return []
+        out = []
+        for off in range(1, 40):
+            v = copy.deepcopy(base)
+            v["threads"]["sched"] = {"mode": "explicit", "switches": [[rel[-1] + off, 1]]}
+            out.append(v)
+        return out
+
     def run(self, scn):
         if "threads" not in scn:
             return Prop.run(self, scn)
@@ -130,6 +165,15 @@ class C09(Prop):
             # its idle connections from the oldest)
             w = res.world
             idle = scn["world"]["client_kwargs"].get("pool_idle_timeout", 0)
+            if idle and not out and scn.get("no_faults"):
+                # nothing failed in this scenario: a connection closed within pool_idle_timeout of its last use was
+                # a healthy, fresh one ("a healthy one is reused rather than reopened")
+                for sk in w.sockets:
+                    if sk.closed and sk.last_io is not None and sk.closed_at - sk.last_io <= idle:
+                        out.append({"oracle": "healthy-connection-not-reused", "method": None,
+                                    "disc": "closed-while-fresh", "step": res.extra["sched"].step,
+                                    "detail": {"sock": sk.id, "idle_for": sk.closed_at - sk.last_io, "timeout": idle}})
+                        break
             if idle and not out:
                 for sk in w.sockets:
                     if not sk.closed and sk.last_io is not None and w.clock.now - sk.last_io > idle:
@@ -141,7 +185,8 @@ class C09(Prop):
         return res
 
     def hooks(self, scn):
-        return (PoolHook(),)
+        from .c06 import LedgerHook
+        return (PoolHook(), LedgerHook())
 
     def judge(self, scn, res):
         out = []
@@ -157,6 +202,10 @@ class C09(Prop):
                 out.append(viol("pool-slot-lost", rec, used=rec.extra["pool_used"]))
             if rec.outcome == "raise" and isinstance(rec.exc, RuntimeError):
                 out.append(viol("pool-exhausted", rec, err=engine._exc_text(rec.exc)[:80]))
+            # (b0) a socket opened for this call and then given up (e.g. during connection establishment) is closed,
+            # not left open where neither the client nor the pool can reach it
+            if rec.extra.get("leaked"):
+                out.append(viol("failed-connection-kept", rec, disc="unreachable", socks=rec.extra["leaked"][:4]))
             # (b) a socket that failed during this call is closed by the end of it ...
             for sid in used_socks:
                 s = w.sockets[sid]
